@@ -7,6 +7,8 @@ import (
 	"go/ast"
 	"go/token"
 	"go/types"
+	"os"
+	"sort"
 	"strings"
 )
 
@@ -638,6 +640,10 @@ func (c *FCtx) havocLoopHeap(e *Env, st *State, body *ast.BlockStmt, extra []ast
 	var keys []string
 	for k := range ws.Writes {
 		keys = append(keys, k)
+	}
+	if os.Getenv("GOCV_LOOPWRITES") != "" {
+		sort.Strings(keys)
+		fmt.Fprintf(os.Stderr, "loop writes in %s: %v\n", c.FI.Key, keys)
 	}
 	c.havocWriteSet(st, keys)
 	c.havocLocks(st, ws)
